@@ -231,6 +231,13 @@ func runWorker(args []string) int {
 		}
 		tp := core.NewTape(core.RunSeed(*seed, *prop, r))
 		rr := core.Exec(*prop, tp, false, func(c *core.Ctx) *core.Violation { c.Env = env; return f(c) })
+		if raceEnabled && rr.V != nil && strings.HasSuffix(rr.V.Class, "/deadlock") {
+			// The blocked goroutine never synchronises with this one again, so reading what it
+			// wrote (counters, tape) would itself be reported by the detector. Hand the run to the
+			// orchestrator, which re-establishes the verdict with the plain binary.
+			fmt.Fprintf(os.Stderr, "DEADLOCK-IN-RUN %d\n", r)
+			os.Exit(67)
+		}
 		res.Runs++
 		res.Events += int64(rr.Ctx.L.Seq)
 		res.Digest ^= core.Mix(rr.Ctx.L.Digest, uint64(r)) // order- and partition-independent
@@ -365,6 +372,13 @@ func runWorker(args []string) int {
 			if len(tp.Rec) > 20000 {
 				maxExec = 400
 			}
+			if strings.HasSuffix(class, "/deadlock") {
+				// The blocked goroutine of the failing execution still holds its lock: this process
+				// is spoilt for every later execution. One process per candidate; the verdict
+				// written to the replay file is the fresh child's.
+				res.Violations = append(res.Violations, deadlockFile(os.Args[0], *prop, *seed, *tier, r, tp.Rec, rr.V, rr.Ctx.Desc, tail(rr.Ctx.L.Lines, 200)))
+				break
+			}
 			small, execs := core.Shrink(tp.Rec, class, oracle, maxExec, maxDur)
 			fin := execTape(*prop, small, true, env)
 			if fin.V == nil || fin.V.Class != class {
@@ -414,6 +428,61 @@ func tail(l []string, n int) []string {
 		return l
 	}
 	return append([]string{fmt.Sprintf("... %d earlier events omitted", len(l)-n)}, l[len(l)-n:]...)
+}
+
+// ---------------------------------------------------------------- deadlocks
+
+var deadlockMarker = regexp.MustCompile(`(?m)^DEADLOCK-IN-RUN (\d+)$`)
+
+// deadlockFile minimises a tape whose execution never returns (one fresh
+// process of bin per candidate) and writes the replay file.
+func deadlockFile(bin, prop string, seed uint64, tier string, r int, tape []uint32, v0 *core.Violation, desc, trace []string) violationRec {
+	class := v0.Class
+	oracle := func(tape []uint32) (*core.Violation, []uint32) {
+		c, o, used := execTapeProc(bin, prop, tier, tape, true)
+		if c == 1 && classOf(o) == class {
+			if used == nil {
+				used = tape
+			}
+			return &core.Violation{Class: class}, used
+		}
+		return nil, nil
+	}
+	c0, o0, _ := execTapeProc(bin, prop, tier, tape, true)
+	small, execs := tape, 0
+	msg := v0.Msg
+	if c0 == 1 && classOf(o0) == class {
+		small, execs = core.Shrink(tape, class, oracle, 40, 60*time.Second)
+		if c1, o1, _ := execTapeProc(bin, prop, tier, small, true); c1 == 1 && classOf(o1) == class {
+			msg = msgOf(o1)
+		} else {
+			small = tape
+			msg = msgOf(o0)
+		}
+	}
+	rf := replayFile{Property: prop, Seed: seed, Run: r, Tier: tier, Class: class, Facts: v0.Facts, Msg: msg, Event: v0.Event,
+		Digest: "fresh", Tape: small, Desc: desc, Trace: trace, OrigTape: len(tape), FreshOnly: true, Build: buildName()}
+	path := filepath.Join(replayDir(), fmt.Sprintf("%s-%d-%d-deadlock.json", prop, seed, r))
+	os.MkdirAll(filepath.Dir(path), 0o755)
+	b, _ := json.MarshalIndent(rf, "", " ")
+	os.WriteFile(path, b, 0o644)
+	return violationRec{Run: r, Class: class, Facts: rf.Facts, Msg: msg, Replay: path, Shrunk: len(small), Execs: execs}
+}
+
+// confirmDeadlock re-establishes, with the plain binary, a deadlock that a race worker met in run r.
+func confirmDeadlock(prop string, seed uint64, tier string, r int) (*violationRec, string) {
+	out, err := exec.Command(os.Args[0], "tape", "-prop", prop, "-seed", strconv.FormatUint(seed, 10), "-run", strconv.Itoa(r), "-tier", tier).Output()
+	var tape []uint32
+	if err != nil || json.Unmarshal(out, &tape) != nil {
+		return nil, fmt.Sprintf("cannot obtain the tape of run %d", r)
+	}
+	c, o, _ := execTapeProc(os.Args[0], prop, tier, tape, true)
+	if c != 1 || !strings.HasSuffix(classOf(o), "/deadlock") {
+		return nil, fmt.Sprintf("run %d blocked forever in a race worker, but not in a fresh process of the plain binary (exit %d):\n%s", r, c, lastLines(o, 20))
+	}
+	v0 := &core.Violation{Class: classOf(o), Facts: factsOf(o), Msg: msgOf(o)}
+	vr := deadlockFile(os.Args[0], prop, seed, tier, r, tape, v0, nil, nil)
+	return &vr, ""
 }
 
 // ---------------------------------------------------------------- replay
@@ -663,6 +732,24 @@ func runCheck(args []string) int {
 				}
 				raceSeen[sumKey] = true
 				vr, problem := confirmRace(*prop, seed, *tier, rr, *raceBin, cfg.singleProc, errOut)
+				if vr == nil {
+					broken = append(broken, fmt.Sprintf("worker %d: %s", i, problem))
+					continue
+				}
+				total.Violations = append(total.Violations, *vr)
+				continue
+			}
+			if m := deadlockMarker.FindStringSubmatch(errOut); m != nil {
+				// a race worker met a run that never returns: the verdict is re-established with the plain binary
+				rr, _ := strconv.Atoi(m[1])
+				dup := false
+				for _, v := range total.Violations {
+					dup = dup || strings.HasSuffix(v.Class, "/deadlock")
+				}
+				if dup {
+					continue
+				}
+				vr, problem := confirmDeadlock(*prop, seed, *tier, rr)
 				if vr == nil {
 					broken = append(broken, fmt.Sprintf("worker %d: %s", i, problem))
 					continue
@@ -1084,11 +1171,14 @@ func runExecTape() int {
 	fmt.Printf("OPDIGEST %016x\n", res.Ctx.L.OpDigest)
 	if res.V != nil {
 		fmt.Printf("CLASS %s\n", res.V.Class)
+		fmt.Printf("FACTS %s\n", res.V.Facts)
 		fmt.Printf("MSG %s\n", strings.ReplaceAll(res.V.Msg, "\n", " "))
 		return 1
 	}
 	return 0
 }
+
+func factsOf(out string) string { return lineOf(out, "FACTS ") }
 
 func lineOf(out, prefix string) string {
 	for _, l := range strings.Split(out, "\n") {
